@@ -4,6 +4,7 @@ CONSTANTS
   Cid <- MC4Cid
   Qof <- MC4Qof
   Transport = "tcp"
+  AnswerRcode = "ok"
   CheckQuestion = TRUE
   MaxSends = 4
   MaxSocks = 4
